@@ -53,12 +53,18 @@ EpItem(ov, mig, rep, feat, gen, rev) ==
                       \o <<H("do_it", "exec", <<>>)>>
                       \o (IF mig THEN <<H("migrate", "migrate", <<>>)>> ELSE <<>>)
                       \o (IF rep THEN <<replyH>> ELSE <<>>)]
+(* several kinds overridden with one and the same function (legal whenever the kinds share a signature) *)
+SharedFn(it) == [it EXCEPT !.id = @ \o "s",
+                           !.attrs = [i \in 1..Len(@) |-> IF @[i].p = "sv::override_entry_point"
+                                                          THEN A("sv::override_entry_point", it.overrides[i] \o " = crate::ov::shared(OvMsg)") ELSE @[i]]]
 MembersReversed(it) ==      \* `new` stays first; the handlers follow in the opposite order
     [it EXCEPT !.id = @ \o "m", !.members = <<@[1]>> \o Reverse(Tail(@))]
 EpFamily == {EpItem(ov, mig, rep, feat, gen, FALSE) :
                 ov \in SUBSET AllKinds, mig \in BOOLEAN, rep \in BOOLEAN, feat \in BOOLEAN, gen \in BOOLEAN}
        \cup {EpItem(ov, mig, rep, FALSE, FALSE, TRUE) :       \* the same overrides declared in the opposite order (C14)
                 ov \in {o \in SUBSET AllKinds : Cardinality(o) >= 2}, mig \in BOOLEAN, rep \in BOOLEAN}
+       \cup {SharedFn(EpItem(ov, mig, rep, FALSE, FALSE, FALSE)) :
+                ov \in {{"sudo", "migrate"}, {"instantiate", "exec"}, {"sudo", "migrate", "reply"}, {"exec", "sudo", "query"}}, mig \in BOOLEAN, rep \in BOOLEAN}
        \cup {MembersReversed(EpItem(ov, mig, rep, feat, FALSE, FALSE)) :      \* the same handlers declared in the opposite order (C14)
                 ov \in {{}, {"exec"}, {"migrate"}, {"reply"}}, mig \in BOOLEAN, rep \in BOOLEAN, feat \in BOOLEAN}
 
